@@ -242,6 +242,14 @@ func c04Scenarios(tier string) []*Scenario {
 	add("halfopen-straggler-reopen-fail", []Spec{HOD(2, 2)}, 0, []ExeSpec{{Script: fail(30)}, {Script: fail(5), StartAt: 1}}, true)
 	add("halfopen-straggler-next-period", []Spec{HOD(2, 2)}, 0, []ExeSpec{{Script: ok(30)}, {Script: fail(5), StartAt: 1}, {Script: ok(10), StartAt: D + 50}, {Script: ok(10), StartAt: D + 50}}, true)
 	add("halfopen-straggler-close", []Spec{HOD(1, 2)}, 0, []ExeSpec{{Script: fail(30)}, {Script: ok(5), StartAt: 1}, {Script: fail(5), StartAt: 40}}, true)
+	// a success threshold combined with a larger failure-side capacity: the trial capacity is the success side's
+	add("halfopen-cap-combined", []Spec{{Kind: KBreaker, FT: 3, FC: 5, ST: 2, SC: 2, BDelay: Long, Pre: "halfopen"}}, 0, []ExeSpec{{Script: ok(10)}, {Script: ok(10)}, {Script: ok(10)}, {Script: ok(10)}}, true)
+	add("halfopen-cap-combined-ratio", []Spec{{Kind: KBreaker, FT: 4, FC: 4, ST: 1, SC: 2, BDelay: Long, Pre: "halfopen"}}, 0, []ExeSpec{{Script: fail(10)}, {Script: ok(10)}, {Script: ok(10)}}, true)
+	// a trial that fails inside the breaker in a way the breaker's own conditions do not count (an inner
+	// timeout, an exhausted inner retry) still gives its permit back
+	hE2 := []Cond{{K: "errs", E: E2}}
+	add("breaker(timeout)-trial-unhandled", []Spec{{Kind: KBreaker, FT: 1, FC: 1, ST: 2, SC: 2, BDelay: Long, Pre: "halfopen", Handle: hE2}, {Kind: KTimeout, Limit: 20}}, 0, []ExeSpec{{Script: []Out{{V: 1, Block: true}}}, {Script: []Out{{V: 1, Block: true}}, StartAt: 30}, {Script: ok(5), StartAt: 60}}, false)
+	add("breaker(retry)-trial-unhandled", []Spec{{Kind: KBreaker, FT: 1, FC: 1, ST: 2, SC: 2, BDelay: Long, Pre: "halfopen", Handle: hE2}, {Kind: KRetry, MaxRetries: 1}}, 0, []ExeSpec{{Script: fail(5)}, {Script: fail(5), StartAt: 30}, {Script: ok(5), StartAt: 60}}, false)
 	// open -> delay elapses exactly when the next executions arrive -> half-open
 	add("delay-boundary", []Spec{CB(1, D)}, 0, []ExeSpec{{Script: fail(0)}, {Script: ok(10), StartAt: D - 1}, {Script: ok(10), StartAt: D}, {Script: ok(10), StartAt: D}}, true)
 	add("delay-boundary-fail", []Spec{CB(1, D)}, 0, []ExeSpec{{Script: fail(0)}, {Script: fail(10), StartAt: D}, {Script: ok(10), StartAt: D}}, true)
